@@ -84,7 +84,7 @@ Section Steps2.
     assert (HV : vacated o j (view_obj x) (cv m) (cv m1)).
     { rewrite E1. exact (vacate_all (vacate j) (cv m) o j (view_obj x) HI (cv_h_lookup _ _ _ Ex)
                            eq_refl eq_refl eq_refl (or_introl eq_refl)). }
-    destruct HV as (HW & HK & Hn & Hpre).
+    destruct HV as (HW & HK & En1 & Hn & Hpre).
     clearbody m1.
     assert (Hsl0 : slotv (cv_h (cv m)) o j = Some sl)
       by (rewrite (slotv_eq _ _ _ _ (cv_h_lookup _ _ _ Ex)); exact Esl).
@@ -95,7 +95,7 @@ Section Steps2.
     assert (HX : res (cv m) X /\ RelW (cv m1) (cv X.1)).
     { unfold X. destruct sl as [|aid script].
       - split; [|cbn [fst]; apply Rel_RelW, Rel_refl, (RelW_CIv _ _ HW)].
-        apply res_intro. eapply Rel_vacate_none; [exact HW|exact HK|].
+        apply res_intro. eapply Rel_vacate_none; [exact HW|exact HK|exact En1|].
         intros a s. rewrite Hsl0. discriminate.
       - assert (HP : Pre (KCleanRun o aid script) m1)
           by (split; [exact (RelW_CIv _ _ HW) | apply (Hpre aid script), Esl]).
@@ -103,7 +103,7 @@ Section Steps2.
         destruct (rec (KCleanRun o aid script) m1) as [m2 r2]. cbn [fst snd] in *.
         split; [|exact (res_RelW _ _ HR)].
         destruct r2; unfold res in *; cbn [fst snd] in *;
-          first [ (eapply Rel_vacate_run; [exact HW|exact HK|exact Hsl0|exact HR|apply Hx; discriminate])
+          first [ (eapply Rel_vacate_run; [exact HW|exact HK|exact En1|exact Hsl0|exact HR|apply Hx; discriminate])
                 | (eapply RelW_trans; [exact HW|exact HR]) ]. }
     clearbody X. destruct X as [m2 r2]. destruct HX as [HX HW2]. cbn [fst] in HW2.
     destruct r2; unfold res in HX; cbn [fst snd] in HX.
@@ -244,10 +244,10 @@ Section Steps2.
       assert (Hlen1 : length (cv_h (cv m1)) = S mo)
         by (rewrite En; cbn [cv_h]; rewrite app_length, Hlen; cbn [length]; lia).
       assert (Ho1 : is_Some (cv_h (cv m1) !! o)).
-      { destruct H01 as [(_ & (_ & _ & Hk & _) & _) _].
+      { destruct H01 as ((_ & (_ & _ & Hk & _) & _) & _).
         destruct (Hk o _ (cv_h_lookup _ _ _ Ex)) as (w' & Hw' & _). eauto. }
       assert (Hge : length (cv_h v0) <= mo).
-      { destruct Hr as [(_ & (_ & _ & _ & Hl & _) & _) _]. lia. }
+      { destruct Hr as ((_ & (_ & _ & _ & Hl & _) & _) & _). lia. }
       clearbody m1. clearbody mo.
       assert (HT : exists m2 t, (if k_auto K then rec KTrigger m1 else (m1, ONormal)) = (m2, t) /\
                                 res v0 (m2, t) /\ is_mapv m2 mo /\ unlinked (cv_h (cv m2)) mo /\
@@ -347,7 +347,7 @@ Section Steps2.
       exact (vacate_all (vacate_free (cr_slot cr)) (cv m1) (cr_map cr) (cr_slot cr) (view_obj mx)
                (Rel_CIv _ _ H1) (cv_h_lookup _ _ _ Emx) eq_refl eq_refl eq_refl
                (or_intror (conj eq_refl (ex_intro _ aid (ex_intro _ script Esl))))). }
-    destruct HV as (HW & HK & Hn & Hpre).
+    destruct HV as (HW & HK & En1 & Hn & Hpre).
     clearbody m3. clearbody m2.
     assert (Hsl0 : slotv (cv_h (cv m1)) (cr_map cr) (cr_slot cr) = Some (MAction aid script))
       by (rewrite (slotv_eq _ _ _ _ (cv_h_lookup _ _ _ Emx)); exact Esl).
@@ -358,7 +358,7 @@ Section Steps2.
     { destruct (rec (KCleanRun (cr_map cr) aid script) m3) as [m4 r4]. cbn [fst snd] in *.
       eapply res_trans; [exact H1|].
       destruct r4; unfold res in *; cbn [fst snd] in *;
-        first [ (eapply Rel_vacate_run; [exact HW|exact HK|exact Hsl0|exact HR|apply Hx; discriminate])
+        first [ (eapply Rel_vacate_run; [exact HW|exact HK|exact En1|exact Hsl0|exact HR|apply Hx; discriminate])
               | (eapply RelW_trans; [exact HW|exact HR]) ]. }
     clear HR Hx.
     destruct (rec (KCleanRun (cr_map cr) aid script) m3) as [m4 r4].
